@@ -168,6 +168,35 @@ def r2_two_maps(repo):
     obs.append(Ob("C16-R2", "_add_entity:no-early-return", _where(repo, f), not rets,
                   "_add_entity has return statements at %s" % [r.lineno for r in rets]))
 
+    # who may write / delete the two maps
+    cls = repo.cls(CTX)
+    removers, rev_writers = [], []
+    for name, m in sorted(cls.methods.items()):
+        for n in iter_own_nodes(m.node):
+            tgt = None
+            if isinstance(n, ast.Delete):
+                for t in n.targets:
+                    if "self._context" in src(t) or "self._namespaces" in src(t):
+                        removers.append((name, " ".join(src(n).split())))
+            if isinstance(n, ast.Call) and isinstance(n.func, ast.Attribute) and \
+                    n.func.attr in ("pop", "popitem", "clear", "remove", "discard") and \
+                    ("self._context" in src(n.func.value) or "self._namespaces" in src(n.func.value)):
+                removers.append((name, " ".join(src(n).split())))
+            if isinstance(n, (ast.Assign, ast.AugAssign)):
+                for t in (n.targets if isinstance(n, ast.Assign) else [n.target]):
+                    if src(t).startswith("self._namespaces"):
+                        rev_writers.append((name, " ".join(src(n).split())))
+    allowed_removers = {("_remove_entity", None), ("remove_namespace", None)}
+    bad = [r for r in removers if r[0] not in ("_remove_entity", "remove_namespace")]
+    n_rm = [r for r in removers if r[0] == "_remove_entity"]
+    obs.append(Ob("C16-R2", "only-the-removers-delete-entries", _where(repo, cls.methods["_add_entity"]),
+                  not bad and len(n_rm) == 2,
+                  "entries of the two maps may be deleted only by _remove_entity (exactly its two deletes: the forward entry "
+                  "and the reverse entry of that very declaration) and remove_namespace; deletions found: %s" % removers))
+    badw = [w for w in rev_writers if w[0] not in ("_add_entity", "__init__")]
+    obs.append(Ob("C16-R2", "only-_add_entity-writes-the-reverse-map", _where(repo, cls.methods["_add_entity"]), not badw,
+                  "stores into self._namespaces outside _add_entity / __init__: %s" % badw))
+
     f = repo.method(CTX, "_remove_entity", inherited=False)
     p = f.params
     if len(p) != 4:
@@ -455,7 +484,7 @@ def r5_modes(repo):
 def rules():
     return [
         RuleSpec("C16-R1", "entity table: writers, removers, readers agree on kinds", 18, r1_entity_table),
-        RuleSpec("C16-R2", "forward and reverse map are written/deleted in step", 5, r2_two_maps),
+        RuleSpec("C16-R2", "forward and reverse map are written/deleted in step", 7, r2_two_maps),
         RuleSpec("C16-R3", "get_decl walks from the innermost namespace outwards", 5, r3_innermost),
         RuleSpec("C16-R4", "'decls' kind keeps insertion order", 1, r4_ordered),
         RuleSpec("C16-R5", "three query modes of _get_declarations", 7, r5_modes),
@@ -529,6 +558,16 @@ def _v_glob_skip_classes(tree):
     fn.body[-1].value = V.parse_expr("func_namespaces")
 
 
+def _v_add_pops_previous(tree):
+    fn = V.find_def(tree, "Context._add_entity")
+    fn.body.insert(0, V.parse_stmts("if self._context.get(namespace, {}).get(entity, {}).get(name) is not None:\n    self._namespaces.pop(self._context[namespace][entity][name], None)")[0])
+
+
+def _v_remove_drops_scope(tree):
+    fn = V.find_def(tree, "Context._remove_entity")
+    fn.body.extend(V.parse_stmts("if namespace in self._context and not self._context[namespace]['decls'] and not self._context[namespace]['types']:\n    self._context.pop(namespace)"))
+
+
 def _t_rename_locals(tree):
     fn = V.find_def(tree, "Context._get_declarations")
     V.rename_local(fn, "ns", "component")
@@ -548,6 +587,8 @@ def variants():
         V.Variant("get_vars reads 'decls'", f, _v_get_vars_reads_decls, {"C16-R1"}),
         V.Variant("none filter inverted", f, _v_none_filter_inverted, {"C16-R5"}),
         V.Variant("find_namespaces forgets classes", f, _v_glob_skip_classes, {"C16-R5"}),
+        V.Variant("_add_entity pops the reverse entry of a previous same-named declaration", f, _v_add_pops_previous, {"C16-R2"}),
+        V.Variant("_remove_entity drops the whole scope when it looks empty", f, _v_remove_drops_scope, {"C16-R2"}),
         V.Variant("twin: rename locals in _get_declarations", f, _t_rename_locals, None, twin=True),
         V.Variant("twin: whole tree reformatted by ast.unparse", None, None, None, twin=True),
     ]
